@@ -528,8 +528,12 @@ func c25RunSeq(dir string, f0 string, ops []c25Op, gen func(cur *policy.Policy) 
 			return "", nil, nil, e
 		}
 		// "the next request": the real query functions
-		allowed := cur.IsPeerAllowed(o.Arg)
-		susp := cur.IsPeerSuspicious(o.Arg)
+		qarg := o.Arg
+		if o.Op == "ext_write" {
+			qarg = "" // not a peer operation: the model queries the empty string
+		}
+		allowed := cur.IsPeerAllowed(qarg)
+		susp := cur.IsPeerSuspicious(qarg)
 		newSwaps := cur.NewSwapsAllowed()
 		// a restart / reload of the file as it is now
 		probe, perr := policy.CreateFromFile(path)
@@ -570,11 +574,11 @@ func c25RunSeq(dir string, f0 string, ops []c25Op, gen func(cur *policy.Policy) 
 				}
 			}
 			isAdd := o.Op == "add_allow" || o.Op == "add_susp"
-			if isAdd && changedFile && glued && ineffective && strings.HasPrefix(string(fa), string(fb)) {
+			if ineffective && oerr == nil && sect {
+				diag = "append-lands-in-ignored-section"
+			} else if isAdd && changedFile && glued && ineffective && strings.HasPrefix(string(fa), string(fb)) {
 				// the line was appended directly behind the unterminated last line
 				diag = "append-glued-to-unterminated-last-line"
-			} else if ineffective && oerr == nil && sect {
-				diag = "append-lands-in-ignored-section"
 			}
 		}
 		kind := o.Op
